@@ -265,7 +265,9 @@ def run_line(inp):
                 "difficulty": st.difficulty, "flags": list(st.flags), "checkpoint": st.checkpoint.hex(),
                 "min_difficulty": st.min_difficulty, "network": st.network,
                 "hb_sig": st.hb["sig"].hex(), "hb_msg": st.hb["msg"].hex(), "hb_hash": st.hb["hash"].hex(),
-                "hb_pub": st.hb["pub"].hex(), "mode_before": mode_before, "mode_after": st.mode}
+                "hb_pub": st.hb["pub"].hex(),
+                "ui_hb_sig": st.ui_hb["sig"].hex(), "ui_hb_msg": st.ui_hb["msg"].hex(),
+                "ui_hb_hash": st.ui_hb["hash"].hex(), "ui_hb_pub": st.ui_hb["pub"].hex(), "mode_before": mode_before, "mode_after": st.mode}
         for k in ("tag",):
             if k in inp:
                 minp[k] = inp[k]
